@@ -43,13 +43,13 @@ pub static CONTROL_SOURCE: &[FieldSpec] = &[
     f("Build-Conflicts-Arch", false, RELS, Some("a (=")),
     f("Standards-Version", false, &["4.6.2"], None),
     f("Homepage", false, URLS, Some("not a url")),
-    f("Section", false, &["libs", "non-free/utils"], None),
+    f("Section", false, &["libs", "non-free/utils", ""], None),
     f("Priority", false, PRIO, Some("bogus")),
     f("Maintainer", false, &["Joe Example <joe@example.com>"], None),
     f("Uploaders", false, &["Ann <a@e.org>, Bob <b@e.org>"], None),
     f("Architecture", false, &["any", "all"], None),
     f("Rules-Requires-Root", false, YESNO, Some("binary-targets")),
-    f("Testsuite", false, &["autopkgtest"], None),
+    f("Testsuite", false, &["autopkgtest", ""], None),
     f("Vcs-Git", false, VCS, None),
     f("Vcs-Browser", false, URLS, Some("::")),
 ];
@@ -138,9 +138,9 @@ pub static APT_PACKAGE: &[FieldSpec] = &[
     f("Description", false, MULTI, None),
     f("Homepage", false, &["https://wiki.debian.org/Apt"], None),
     f("Priority", false, PRIO, Some("high")),
-    f("Section", false, &["admin"], None),
+    f("Section", false, &["admin", ""], None),
     f("Essential", false, TRUEFALSE, Some("essential")),
-    f("Tag", false, &["admin::package-management, role::program"], None),
+    f("Tag", false, &["admin::package-management, role::program", ""], None),
     f("Size", false, NUMS, Some("12k")),
     f("MD5sum", false, &["d41d8cd98f00b204e9800998ecf8427e"], None),
     f("SHA256", false, &["e3b0c44298fc1c149afbf4c8996fb92427ae41e4649b934ca495991b7852b855"], None),
@@ -168,7 +168,7 @@ pub static BUILDINFO: &[FieldSpec] = &[
 
 pub static REMOVAL: &[FieldSpec] = &[
     f("Date", true, DATE, None),
-    f("Suite", false, &["unstable"], None),
+    f("Suite", false, &["unstable", ""], None),
     f("Ftpmaster", true, &["Joe Example"], None),
     f("Sources", false, &["foo_1.0-1", "foo_1.0-1\nbar_2.0"], None),
     f("Binaries", false, &["foo_1.0-1 [amd64]", "a_1 [all]\nb_2 [i386]"], None),
@@ -223,7 +223,7 @@ pub static APT_SOURCES: &[FieldSpec] = &[
     f("Allow-Downgrade-To-Insecure", false, TRUEFALSE, Some("maybe")),
     f("Trusted", false, TRUEFALSE, Some("maybe")),
     f("Signed-By", false, &["/usr/share/keyrings/ubuntu-archive-keyring.gpg", "\n-----BEGIN PGP PUBLIC KEY BLOCK-----\n.\nmDMEY865UxYJ\n=5NZE\n-----END PGP PUBLIC KEY BLOCK-----"], None),
-    f("X-Repolib-Name", false, &["Pop_OS System Sources"], None),
+    f("X-Repolib-Name", false, &["Pop_OS System Sources", ""], None),
     f("Description", false, MULTI, None),
 ];
 
